@@ -5,10 +5,13 @@ C15 — warnings are complete, precise and harmless.
 here (for every grammar): `_` is never reported; a name reported as unused has a plain definition
 and occurs in no statement (and conversely); an unused specialisation reported for shell S is a
 definition for S whose name occurs in no statement (and conversely); every set lists a name once.
-The equality of these sets with what the model of check.rs computes (`warn_*_eq`) is checked per
-grammar by the run (model = library exactly, library/binary = spec) and is the open growth target.
+`warn_unused_eq`: for every grammar and shell the model of check.rs accepts, the names in its `unused`
+map are exactly `unusedNames` (proved through the model's specialise / resolve passes,
+`Proofs/Warn.lean`).  The same equality for the other two sets is checked per grammar by the run
+(model = library exactly, library/binary = spec).
 -/
 import Complgen.Spec.Warn
+import Complgen.Proofs.Warn
 namespace Complgen.Props.C15
 open Complgen Complgen.Spec
 
@@ -96,5 +99,16 @@ theorem nodup_eraseDups_aux {α} [BEq α] [LawfulBEq α] (n : Nat) :
 theorem reported_once (sh : Shell) (g : Grammar) :
     (undefinedNames sh g).Nodup ∧ (unusedNames g).Nodup ∧ (unusedSpecNames sh g).Nodup := by
   refine ⟨?_, ?_, ?_⟩ <;> exact nodup_eraseDups_aux _ _ (Nat.le_refl _)
+
+/-- **What the model warns about as unused is what the specification says**, for every grammar and
+target shell the model of check.rs accepts. -/
+theorem warn_unused_eq (g : Grammar) (sh : Shell) (v : Check.Valid) (h : Check.validate g sh = .ok v) (n : String) :
+    n ∈ v.unused.map (·.1) ↔ n ∈ unusedNames g :=
+  Check.validate_unused_eq g sh v h n
+
+/-- hence: a plain definition is reported by the model iff its name occurs in no statement -/
+theorem warn_unused_iff (g : Grammar) (sh : Shell) (v : Check.Valid) (h : Check.validate g sh = .ok v) (n : String) :
+    n ∈ v.unused.map (·.1) ↔ (∃ sp e, Stmt.defn n sp none e ∈ g) ∧ n ∉ referred g :=
+  (warn_unused_eq g sh v h n).trans (unused_iff g n)
 
 end Complgen.Props.C15
